@@ -180,6 +180,15 @@ pub fn cases(tier: Tier) -> Vec<Case> {
         ("priority-on-idle-stream", h2::frame(h2::PRIORITY, 0, 9, &[0, 0, 0, 0, 16]), Expect::Tolerated, false),
         ("empty-data-frames-before-end", [headers_frame(abuse_stream, &[block(&[(":method", "POST"), (":scheme", "https"), (":path", "/abuse-ok"), (":authority", "a.io")]), lit("content-length", "2")].concat(), false), h2::data(abuse_stream, b"", false), h2::data(abuse_stream, b"", false), h2::data(abuse_stream, b"ab", true)].concat(), Expect::StreamError { stream: abuse_stream, codes: vec![], or_status: vec![200] }, false),
         ("padded-data", [headers_frame(abuse_stream, &[block(&[(":method", "POST"), (":scheme", "https"), (":path", "/abuse-ok"), (":authority", "a.io")]), lit("content-length", "2")].concat(), false), h2::frame(h2::DATA, h2::F_END_STREAM | h2::F_PADDED, abuse_stream, &[5, b'a', b'b', 0, 0, 0, 0, 0])].concat(), Expect::StreamError { stream: abuse_stream, codes: vec![], or_status: vec![200] }, false),
+        // ---- a request body without content-length (sozu frames it chunked towards an HTTP/1.1 backend):
+        // frames that carry no application byte must not show on the backend side
+        ("no-length-two-data-frames", [nolen(abuse_stream), h2::data(abuse_stream, b"AAAA", false), h2::data(abuse_stream, b"BBBB", true)].concat(), Expect::StreamError { stream: abuse_stream, codes: vec![], or_status: vec![200] }, false),
+        ("no-length-empty-data-frames-between", [nolen(abuse_stream), h2::data(abuse_stream, b"AAAA", false), h2::data(abuse_stream, b"", false), h2::data(abuse_stream, b"BBBB", true)].concat(), Expect::StreamError { stream: abuse_stream, codes: vec![], or_status: vec![200] }, false),
+        ("no-length-padding-only-data-between", [nolen(abuse_stream), h2::data(abuse_stream, b"AAAA", false), h2::frame(h2::DATA, h2::F_PADDED, abuse_stream, &[3, 0, 0, 0]), h2::data(abuse_stream, b"BBBB", true)].concat(), Expect::StreamError { stream: abuse_stream, codes: vec![], or_status: vec![200] }, false),
+        ("no-length-pad-length-zero-between", [nolen(abuse_stream), h2::data(abuse_stream, b"AAAA", false), h2::frame(h2::DATA, h2::F_PADDED, abuse_stream, &[0]), h2::data(abuse_stream, b"BBBB", true)].concat(), Expect::StreamError { stream: abuse_stream, codes: vec![], or_status: vec![200] }, false),
+        ("no-length-padding-only-data-first", [nolen(abuse_stream), h2::frame(h2::DATA, h2::F_PADDED, abuse_stream, &[3, 0, 0, 0]), h2::data(abuse_stream, b"AAAABBBB", true)].concat(), Expect::StreamError { stream: abuse_stream, codes: vec![], or_status: vec![200] }, false),
+        ("no-length-padding-only-data-ends", [nolen(abuse_stream), h2::data(abuse_stream, b"AAAABBBB", false), h2::frame(h2::DATA, h2::F_PADDED | h2::F_END_STREAM, abuse_stream, &[3, 0, 0, 0])].concat(), Expect::StreamError { stream: abuse_stream, codes: vec![], or_status: vec![200] }, false),
+        ("no-length-padded-data", [nolen(abuse_stream), h2::frame(h2::DATA, h2::F_PADDED, abuse_stream, &[2, b'A', b'A', b'A', b'A', 0, 0]), h2::frame(h2::DATA, h2::F_PADDED | h2::F_END_STREAM, abuse_stream, &[1, b'B', b'B', b'B', b'B', 0])].concat(), Expect::StreamError { stream: abuse_stream, codes: vec![], or_status: vec![200] }, false),
         ("cancel-own-stream-at-once", [headers_frame(abuse_stream, &req_block("/size/100000", &[]), true), h2::rst_stream(abuse_stream, CANCEL)].concat(), Expect::Tolerated, false),
         // cancelled in the middle of its response body (the pre-step opens it and waits for part of the body)
         ("cancel-mid-body", h2::rst_stream(abuse_stream, CANCEL), Expect::Tolerated, false),
@@ -230,7 +239,12 @@ pub fn cases(tier: Tier) -> Vec<Case> {
 
 /// the malformed-request family (what an HTTP/2 client can do to the request sozu writes to a backend)
 pub fn request_cases(tier: Tier) -> Vec<Case> {
-    cases(tier).into_iter().filter(|c| c.must_not_forward || c.name.starts_with("content-length") || c.name.contains("padded-data") || c.name.contains("empty-data-frames")).collect()
+    cases(tier).into_iter().filter(|c| c.must_not_forward || c.name.starts_with("content-length") || c.name.contains("padded-data") || c.name.contains("empty-data-frames") || c.name.starts_with("no-length")).collect()
+}
+
+/// HEADERS of a POST without content-length, body to follow
+fn nolen(stream: u32) -> Vec<u8> {
+    headers_frame(stream, &block(&[(":method", "POST"), (":scheme", "https"), (":path", "/abuse-ok"), (":authority", "a.io")]), false)
 }
 
 fn headers_frame_big(stream: u32) -> Vec<u8> {
@@ -368,6 +382,9 @@ pub fn run_case_tagged(tag: &str, case: &Case, prefix: Vec<u32>, profile: Choice
                 flag("backend-stream-not-canonical".into(), format!("backend connection {ci}: after {} well-formed requests the stream is {e}; next bytes {:?}", msgs.len(), String::from_utf8_lossy(&conn.rx[used..conn.rx.len().min(used + 120)])));
             }
             for m in &msgs {
+                if case.name.starts_with("no-length") && m.start_line.contains("/abuse-ok") && m.body != b"AAAABBBB" {
+                    flag("request-body-changed".into(), format!("the client sent the 8 bytes AAAABBBB as the body of {:?}; the backend's HTTP/1.1 reader finds a {}-byte body {:?}", m.start_line, m.body.len(), String::from_utf8_lossy(&m.body[..m.body.len().min(40)])));
+                }
                 if m.headers_named("sozu-id").is_empty() {
                     flag("request-unknown-to-sozu".into(), format!("backend connection {ci} carries a request {:?} without the correlation header sozu adds to every request it forwards", m.start_line));
                 }
